@@ -500,6 +500,9 @@ type ssaStyle struct {
 
 // newSSAStyleFromStyle returns an SSA style based on a Style
 func newSSAStyleFromStyle(i Style) *ssaStyle {
+	if i.InlineStyle == nil {
+		return &ssaStyle{name: i.ID}
+	}
 	return &ssaStyle{
 		alignment:       i.InlineStyle.SSAAlignment,
 		alphaLevel:      i.InlineStyle.SSAAlphaLevel,
